@@ -60,7 +60,7 @@ CLAIMED["C04"] = ("exploration", "exhaustive enumeration of all single time/cloc
 CLAIMED["C10"] = ("exploration", "exhaustive enumeration of pause histories: 15 single-feature models x every subset of <=1 (thorough <=2/3) hourly pause instants x pickle yes/no, plus all feature pairs with single pauses; every part run on a new WNTRSimulator and compared with the uninterrupted run",
     "every history of the bound is executed on the real simulator: the continued part must start at the first step after the pause, indices must increase across parts and the concatenated heads, demands, leak demands, flows, statuses and settings must equal the uninterrupted run within 1e-6 (both solved with TOL 1e-10)",
     "pauses are on the hourly grid; networks larger than the 4-6 node family are not covered")
-CLAIMED["C11"] = ("model_checking", "explicit enumeration of all operation histories (runW, runWs, runE, reset, deepcopy, JSON reload, one definition edit) up to length 3 (thorough 4) over 18 models; every history replayed on a fresh real model; definition invariant (to_dict) in every state and result oracles on fresh states",
+CLAIMED["C11"] = ("model_checking", "explicit enumeration of all operation histories (runW, runWs, runE, reset, deepcopy, JSON reload, one definition edit) up to length 3 (thorough 4) over 19 models; every history replayed on a fresh real model; definition invariant (to_dict) in every state and result oracles on fresh states",
     "after every operation of every history the JSON-normalised to_dict must equal the initial one; a WNTRSimulator run on a fresh state (initial / after reset / reloaded / copy of fresh) must equal the first fresh run (1e-9), every EpanetSimulator run must equal the first one",
     "history prefixes are not merged (run-time state of live objects cannot be canonicalised); models are 4-node networks")
 CLAIMED["C19"] = ("exploration", "crossed enumeration of split/break calls (network variant x every pipe x 5 fractions x end x copy x mode) and of skeletonize calls (8 networks x all diameter assignments x thresholds x operation switches x max_cycles x exclusion lists x engine); structural oracles plus a before/after simulation for splits",
